@@ -12,6 +12,7 @@ import (
 	"testing"
 
 	"github.com/Vedant9500/WTF/internal/database"
+	"github.com/Vedant9500/WTF/internal/embedding"
 	"github.com/Vedant9500/WTF/internal/recovery"
 	"github.com/Vedant9500/WTF/verifharness/gen"
 	"github.com/Vedant9500/WTF/verifharness/proc"
@@ -197,6 +198,34 @@ func c01Engine(useShipped bool) func(t *rapid.T) {
 			}
 			warmUp(t, db, cmds)
 		}
+		alignedWord := ""
+		if !useShipped && rapid.IntRange(0, 11).Draw(t, "aligned-embeddings") == 0 {
+			// near-ties at the semantic stage: copies of one entry (equal lexical scores) whose embeddings
+			// are the query word's own vector tilted by 0 .. 3e-4 of its length, so the similarities
+			// differ in the 9th-12th decimal place and the final order hangs on exact comparison
+			word := rapid.SampledFrom([]string{"zorvex", "plinth", "quark"}).Draw(t, "aligned-word")
+			n := rapid.IntRange(2, 6).Draw(t, "aligned-copies")
+			cmds = nil
+			for i := 0; i < n; i++ {
+				cmds = append(cmds, database.Command{Command: word + " sync", Description: "keeps things in step", Niche: fmt.Sprintf("n%d", i)})
+			}
+			cmds = append(cmds, database.Command{Command: "other tool", Description: "unrelated " + word})
+			cls = "aligned-ties"
+			db = gen.Load(t, cmds)
+			dim := 8
+			v := rapid.SliceOfN(rapid.Float32Range(0.2, 1), dim, dim).Draw(t, "aligned-vec")
+			idx := &embedding.Index{Dimension: dim, WordVectors: map[string][]float32{word: v}}
+			for range cmds {
+				e := append([]float32(nil), v...)
+				tilt := rapid.SampledFrom([]float32{0, 1e-5, 3e-5, 1e-4, 3e-4, -1e-4}).Draw(t, "tilt")
+				j := rapid.IntRange(0, dim-2).Draw(t, "tilt-axis")
+				e[j] += tilt * v[j+1] // not along v: the cosine changes only in second order
+				e[j+1] -= tilt * v[j]
+				idx.CmdEmbeddings = append(idx.CmdEmbeddings, e)
+			}
+			database.VerifSetEmbeddingIndex(db, idx)
+			withEmb, alignedWord = true, word
+		}
 		var q string
 		var qcls gen.QueryClass
 		if useShipped {
@@ -208,7 +237,15 @@ func c01Engine(useShipped bool) func(t *rapid.T) {
 		if useShipped && opt.Limit > 1000 {
 			opt.Limit = 1000
 		}
+		if alignedWord != "" {
+			q, qcls = alignedWord, "aligned-word"
+			opt.ContextBoosts, opt.PipelineOnly = nil, false
+			opt.AllPlatforms = true
+		}
 		e := rapid.SampledFrom(c01Entries).Draw(t, "entry")
+		if alignedWord != "" {
+			e = c01Entries[rapid.SampledFrom([]int{0, 0, 3, 5}).Draw(t, "aligned-entry")] // universal / cached / monitored
+		}
 		if useShipped && e.name == "cached-history" {
 			e = c01Entries[3] // the shared shipped database must not be replaced: plain cached path instead
 		}
